@@ -59,6 +59,6 @@ def static_facts(repo):
     """What the fragment extraction of print_custom_keywords drops is exactly the range-for header over the dynamic keyword map."""
     import re
     t = open(os.path.join(repo, 'src/keywords.cpp')).read()
-    mo = re.search(r'void print_custom_keywords\(FILE \*pfile\)\n\{\n   for \(const auto &keyword_pair : dkwm\)\n   \{\n      E_Token tt = keyword_pair\.second;', t)
+    mo = re.search(r'void print_custom_keywords\(FILE \*pfile\)\n\{\n   for \(const auto &keyword_pair : dkwm\)\n   \{\n      (const )?E_Token tt = keyword_pair\.second;', t)
     mo2 = re.search(r'fprintf\(pfile, "%s%\*\.s= ", option->name\(\), pad, " "\);\n\n         if \(option->type\(\) == OT_STRING\)', t2 := open(os.path.join(repo, 'src/option.cpp')).read())
     return [('save_option_file: the OT_STRING branch directly follows the write of `name = `', bool(mo2), ''), ('print_custom_keywords: the sliced loop body is the whole body of `for (const auto &keyword_pair : dkwm)`, the only statement of the function', bool(mo), '')]
